@@ -1465,7 +1465,7 @@ func (g *rzGen) get(s *rzGSess) string {
 	case r < 66:
 		last, tag = "bad", "get-bad"
 	case r < 70:
-		last, tag = "t9_0", "get-unknown-stream"
+		last, tag = "t99_0", "get-unknown-stream"
 	}
 	if tag == "get-resume" {
 		g.resumes++
